@@ -285,8 +285,9 @@ class Closure:
 class AbstractCallable:
     """A callable value whose behaviour is only known through an abstract contract."""
 
-    def __init__(self, contract_name):
+    def __init__(self, contract_name, method_name=None):
         self.contract_name = contract_name
+        self.method_name = method_name
 
 
 def is_lit_true(t):
@@ -480,7 +481,7 @@ class Engine:
 
     def verify(self, contract: Contract):
         """Generates the obligations of one function under contract."""
-        fi = self.prog.lookup(contract.name.split("$")[0])
+        fi = self.prog.lookup(getattr(contract, "source", None) or contract.name.split("$")[0])
         if fi is None:
             raise ContractError(f"contract target {contract.name} not found in the program")
         self.cur = contract
@@ -531,6 +532,8 @@ class Engine:
                 if self.canary_pc is None:
                     self.canary_pc = list(f.pc)
                 res = f.value if f.status == "ret" and f.value is not None else VNONE
+                if res.ty.kind == "cacheval" and contract.ret is not None:
+                    res = from_int(contract.ret, res.t[1])   # a cached entry returned as the method's result
                 contract.ghost(Ctx(self, h0, f.heap, args, res), f)
                 hfin = f.heap
                 c = Ctx(self, h0, hfin, args, res)
@@ -910,12 +913,26 @@ class Engine:
                     raise OutsideSubset(
                         f"region mismatch: a list of region {v.ty.region!r} is stored in field {cls}.{attr} "
                         f"declared in region {fty.region!r} (line {getattr(node, 'lineno', 0)})")
+        if not attr.startswith("$") and self.field_ty(cls, attr).kind == "cachedict":
+            if v.ty.kind != "emptydict":
+                raise OutsideSubset(f"{cls}.{attr} assigned something that is not a fresh empty dict")
+            for key in self.cache_keys():
+                st.heap = st.heap.put(f"$cache_has:{key}", obj.t, z3.IntVal(0))
+            v = Val(ANY, v.t)
         st.heap = st.heap.put(attr, obj.t, to_int(v))
         if v.ty.kind == "func":
             self.callable_fields.setdefault(attr, v.t)
         return [st]
 
     def set_item(self, lst: Val, idx: Val, v: Val, st: State, node):
+        if lst.ty.kind == "cachedict":
+            if idx.ty.kind != "str" or not isinstance(idx.t, str):
+                raise OutsideSubset("cache key is not a constant string")
+            if idx.t not in self.cache_keys():
+                raise OutsideSubset(f"cache key {idx.t!r} is not a @_dispatcher_cache method name")
+            st.heap = st.heap.put(f"$cache_has:{idx.t}", lst.t, z3.IntVal(1)) \
+                .put(f"$cache_val:{idx.t}", lst.t, to_int(v))
+            return [st]
         if lst.ty.kind != "list":
             raise OutsideSubset(f"item store on {lst.ty}")
         h = st.heap
@@ -1301,8 +1318,14 @@ class Engine:
             if ca is not None:
                 return self.ev(ca, st)
             raise OutsideSubset(f"class attribute {obj.t}.{attr}")
-        if k in ("list", "deque", "set"):
+        if k in ("list", "deque", "set", "cachedict"):
             return [(st, Val(Ty("listmethod"), (obj, attr)))]
+        if k == "func" and attr == "__name__":
+            t = obj.t
+            nm = getattr(t, "method_name", None)
+            if nm is None:
+                raise OutsideSubset("__name__ of an unknown callable")
+            return [(st, Val(STR, nm))]
         if k != "ref":
             raise OutsideSubset(f"attribute {attr} of {obj.ty} at line {node.lineno}")
         cls = obj.ty.arg
@@ -1336,6 +1359,8 @@ class Engine:
         ty = self.field_ty(cls, attr)
         if ty.kind == "func":
             return [(st, Val(FUNC, ("field", attr, obj)))]
+        if ty.kind == "cachedict":
+            return [(st, Val(ty, obj.t))]
         ok = obj.t != 0
         okst, bad = self.split(st, ok, "AttributeError", node)
         out = [(b, None) for b in bad]
@@ -1653,6 +1678,8 @@ class Engine:
                 return z3.BoolVal(True)
             if ka == "opt":
                 return a.aux
+            if ka == "cacheval":
+                return z3.Not(a.t[0])
             if ka in ("ref", "list", "any", "deque", "callref"):
                 return a.t == 0
             if ka in ("int", "bool", "func", "xint", "tuple", "str", "set"):
@@ -1762,7 +1789,24 @@ class Engine:
 
     # generator expressions are only evaluated by the builtins that consume them
     def ev_GeneratorExp(self, e, st):
-        return [(st, Val(Ty("gen"), (e, dict(st.env))))]
+        # python evaluates the outermost iterable of a generator expression immediately, when the
+        # generator object is created: do the same (it may be an impure call)
+        first = e.generators[0]
+        if self.simple_expr([first.iter]):
+            return [(st, Val(Ty("gen"), (e, dict(st.env))))]
+        out = []
+        for s2, itv in self.ev(first.iter, st):
+            if s2.status != "run":
+                out.append((s2, None))
+                continue
+            tmp = f"$gen_iter_{id(e)}"
+            s2.env[tmp] = itv
+            g2 = copy.copy(e)
+            f2 = copy.copy(first)
+            f2.iter = ast.copy_location(ast.Name(id=tmp, ctx=ast.Load()), first.iter)
+            g2.generators = [f2] + list(e.generators[1:])
+            out.append((s2, Val(Ty("gen"), (g2, dict(s2.env)))))
+        return out
 
     def ev_ListComp(self, e, st):
         from .builtins import list_comprehension
@@ -1778,7 +1822,17 @@ class Engine:
         if e.keys:
             raise OutsideSubset("non-empty dict display")
         r = self.alloc_ref(st)
-        return [(st, Val(ANY, r))]
+        return [(st, Val(Ty("emptydict"), r))]
+
+    def cache_keys(self):
+        """names of the methods decorated with @_dispatcher_cache (read from the program)"""
+        keys = []
+        ci = self.prog.classes.get("Dispatcher")
+        if ci:
+            for nm, fi in ci.methods.items():
+                if any(d.endswith("_dispatcher_cache") for d in fi.decorators):
+                    keys.append(nm)
+        return sorted(keys)
 
     # ------------------------------------------------------------ dynamic types
     def class_id(self, cls):
@@ -1825,6 +1879,9 @@ class Engine:
                 raise OutsideSubset(f"super().{f.attr} not found")
             selfv = st.env[self.cur_fi.node.args.args[0].arg]
             return self.call_function(target, [selfv], e, st)
+        # closure variables provided by the contract (e.g. `method` inside the cache wrapper)
+        if isinstance(f, ast.Name) and f.id not in st.env and f.id in (getattr(self.cur, "globals", None) or {}):
+            return self.call_value(self.cur.globals[f.id], e, st)
         # builtins and library functions by name
         if isinstance(f, ast.Name) and f.id not in st.env:
             r = call_builtin(self, f.id, e, st)
@@ -2025,6 +2082,8 @@ class Engine:
         rty = con.ret if con.ret is not None else NONE
         res = self.fresh_val(rty, f"r_{con.name.split('.')[-1]}", st if rty.kind != "opt" else st, nonnull=False) \
             if rty.kind != "none" else VNONE
+        if getattr(con, "borrowed", False) and res.ty.kind == "list":
+            res.aux = "borrowed"
         c1 = Ctx(self, h0, st.heap, bound, res, extra=extra)
         for nm, p in con.ensures(c1):
             st.assume(p, nm)
